@@ -389,8 +389,11 @@ func applyAddAlsoKnownAs(doc document.Document, entry interface{}) (document.Doc
 	addURIs := document.StringArray(entry)
 	existingURIs := sliceToMap(didDoc.AlsoKnownAs())
 
-	var newURIs []string
-	newURIs = append(newURIs, didDoc.AlsoKnownAs()...)
+	// entries of another JSON type (a json patch can put them there) are kept where they are
+	var newURIs []interface{}
+	if existing, ok := doc[document.AlsoKnownAs].([]interface{}); ok {
+		newURIs = append(newURIs, existing...)
+	}
 
 	for _, uri := range addURIs {
 		_, ok := existingURIs[uri]
@@ -400,31 +403,23 @@ func applyAddAlsoKnownAs(doc document.Document, entry interface{}) (document.Doc
 		}
 	}
 
-	doc[document.AlsoKnownAs] = interfaceArray(newURIs)
+	doc[document.AlsoKnownAs] = newURIs
 
 	return doc, nil
-}
-
-func interfaceArray(values []string) []interface{} {
-	var iArr []interface{}
-	for _, v := range values {
-		iArr = append(iArr, v)
-	}
-
-	return iArr
 }
 
 func applyRemoveAlsoKnownAs(doc document.Document, entry interface{}) (document.Document, error) {
 	logger.Debug("Applying remove also-known-as patch", logfields.WithPatch(entry))
 
-	didDoc := document.DidDocumentFromJSONLDObject(doc.JSONLdObject())
 	urisToRemove := sliceToMap(document.StringArray(entry))
 
 	var newURIs []interface{}
 
-	for _, uri := range didDoc.AlsoKnownAs() {
-		_, ok := urisToRemove[uri]
-		if !ok {
+	existing, _ := doc[document.AlsoKnownAs].([]interface{})
+
+	for _, uri := range existing {
+		text, isText := uri.(string)
+		if !isText || !urisToRemove[text] {
 			// not in remove list so add to resulting services
 			newURIs = append(newURIs, uri)
 		}
